@@ -186,3 +186,16 @@ impl StackFrame {
                 final(self).stack.max_stack_size == old(self).stack.max_stack_size,
     { unimplemented!() }
 }
+
+// ---- ConstructArray / MakeClosure arms
+pub uninterp spec fn array_value(elems: Seq<Value>) -> Value;                 // an array whose elements are these, in order
+pub uninterp spec fn closure_value(function_index: VmIndex, upvars: Seq<Value>) -> Value;
+// `alloc(.., ArrayDef(fields))` / `alloc(.., ClosureDataDef(func, args.iter()))` (ASSUMED like alloc_def)
+#[verifier::external_body]
+pub fn alloc_array(elems: &[Value]) -> (r: Result<DataRef, Error>)
+    ensures r is Ok ==> dataref_value(r->Ok_0) == array_value(elems@)
+{ unimplemented!() }
+#[verifier::external_body]
+pub fn alloc_closure(function_index: VmIndex, upvars: &[Value]) -> (r: Result<DataRef, Error>)
+    ensures r is Ok ==> dataref_value(r->Ok_0) == closure_value(function_index, upvars@)
+{ unimplemented!() }
